@@ -337,6 +337,17 @@ void LVCalc(matrix *X,
 
   (*bcoef) = DVectorDVectorDotProd(u_, t_)/dot_t;
 
+  if(_isnan_(dot_t) || _isnan_((*bcoef))){
+    /* null latent variable (X holds no further direction): return a zero component
+     * and leave X and Y untouched instead of spreading NaN to the next latent variables */
+    DVectorSet(t_, 0.f);
+    DVectorSet(p_, 0.f);
+    DVectorSet(u_, 0.f);
+    DVectorSet(q_, 0.f);
+    DVectorSet(w_, 0.f);
+    (*bcoef) = 0.f;
+  }
+
   /*End Step 13*/
 
   /* Step 14  Adjust X for what has been found: Xnew=X-tp'  and Y fort what has been found Ynew = Y - btp' */
